@@ -118,6 +118,8 @@ def run_check(rep, tier, seed, replay, prop, names, nontrivial, rule, quick_num=
     suffix = '' if prop == 'C08' else '_C09'
     # 1. design check: every behaviour of the bounded model satisfies P_* (StepsOK) and the invariants
     cfgs = ['MC_Cleaner%s.cfg' % suffix] if quick else ['MC_Cleaner%s.cfg' % suffix, 'MC_Cleaner%s_thorough.cfg' % suffix]
+    if os.environ.get('VERIF_SKIP_DESIGN'):      # self-tests of the binding (mutants) only
+        cfgs = []
     for cfg in cfgs:
         res = core.tlc_check('MC_Cleaner.tla', cfg, timeout=3000, coverage=not quick)
         rep.add_design(cfg[:-4], res)
